@@ -213,6 +213,64 @@ def poll2_twin(copies: int, two_ids: int, k1: int) -> bool:
     return False
 '''
 
+BODYF = r'''
+from pynenc.invocation.dist_invocation import DistributedInvocation
+RUNS = []
+def counted() -> int:
+    RUNS.append(1)
+    return 7
+
+def install_body():
+    mo.threading = coop.CoopThreading()
+    coop.install_sqlite_standin()
+    names = ["set_invocation_status", "set_invocation_result", "reroute_invocations"]
+    ALLB = set(names + MEM_NAMES + ["run"])
+    coop.yieldify(bo.BaseOrchestrator, names, all_names=ALLB)
+    coop.yieldify(mo.MemOrchestrator, MEM_NAMES, all_names=ALLB)
+    coop.yieldify(so.SQLiteOrchestrator, ["_atomic_status_transition"], all_names=ALLB, sql=True)
+    coop.yieldify(DistributedInvocation, ["run"], all_names=ALLB)
+install_body()
+
+def body_once(kind, start, first, slices):
+    # start: 0 = claimed by r1 (PENDING under r1), 1 = still REGISTERED (nobody claimed): two workers hold the same invocation object
+    global LAST_DETAIL
+    reset_uuid()
+    RUNS.clear()
+    app = mk_app(kind, app_id="c02b" + kind, cached_status_time=0.0)
+    task = app.task(counted); warm_task(task)
+    inv = new_invocations(app, task, 1)[0]
+    iid = inv.invocation_id
+    o = app.orchestrator
+    c1, c2 = runner_ctx("r1"), runner_ctx("r2")
+    if start == 0:
+        o.set_invocation_status(iid, InvocationStatus.PENDING, c1)
+    a = app.state_backend.get_invocation(iid)
+    b = app.state_backend.get_invocation(iid)
+    actors = [coop.Actor("legit", a.run__gen(c1)), coop.Actor("stale", b.run__gen(c2))]
+    res = coop.run_schedule(actors, first, slices)
+    coop.close_all_connections()
+    errs = [repr(x.error) for x in actors if x.error is not None]
+    rec = o.get_invocation_status_record(iid)
+    LAST_DETAIL = {"kind": kind, "start": start, "body_runs": len(RUNS), "errors": errs, "final": (rec.status.value, rec.runner_id), "schedule": res["schedule"]}
+    if errs or res["deadlock"]:
+        return False
+    # no kill / recovery happened: the body ran at most once, and exactly once when the legitimate owner held it
+    if len(RUNS) > 1:
+        return False
+    if start == 0 and (len(RUNS) != 1 or rec.status.value != "success"):
+        return False
+    return True
+
+def body___KIND__(start: int, first: int, k1: int, k2: int) -> bool:
+    """
+    pre: 0 <= start <= 1 and 0 <= first <= 1 and 0 <= k1 <= 60 and 0 <= k2 <= 60
+    post: _
+    """
+    start = pick(start, 0, 1)
+    with NoTracing():
+        return body_once(["mem", "sqlite"][__KIND__], start, first, [k1, k2])
+'''
+
 CLAIM = r'''
 install(__NEVER__)
 
@@ -275,6 +333,11 @@ def run(ctx: Ctx) -> None:
     # canary: BEGIN IMMEDIATE dropped from the SQLite transition (AST mutation before yieldify; /repo untouched)
     csrc = base + POLL + pollf("True", 1, 0, 0)
     ctx.ch_batch("c02poll_canary", csrc, [Cond("poll2_1_0_0", "refute", 600)])
+    # --- 3. the body never runs twice without a kill / recovery in between
+    for kind, kname in ((0, "mem"), (1, "sqlite")):
+        bsrc = base + BODYF.replace("__KIND__", str(kind))
+        ctx.ch_batch(f"c02body_{kname}", bsrc, [Cond(f"body_{kind}", "confirm", 1500)])
+    ctx.bounds["body"] = "two workers holding the same invocation object (one the legitimate owner, one stale) run the real DistributedInvocation.run twins, 2 preemptions with slices 0..60, both backends: the body executes at most once"
     ctx.bounds["pollers"] = (f"2 pollers running the real get_invocations_to_run(1) twins; queue holds 1-3 copies of one id, optionally a second id, "
                              f"optionally the id also offered through the blocking list; {'2 preemptions' if thorough else '1 preemption'} with slice 0..{pk}")
     ctx.functions_encoded += [
